@@ -149,6 +149,47 @@ def roundtrip_cases(tier, seed):
     return cases
 
 
+def dynamic_cases(tier, seed):
+    """dynamic types with a concrete length n (0..2, thorough ..4) and symbolic element bytes:
+    decode -> log -> return must reproduce the canonical bytes [u64 n][elements]"""
+    cases = []
+    fam = [('vec_u64', 'Vec<u64>', U64, ''), ('vec_u8', 'Vec<u8>', U8, ''), ('vec_bool', 'Vec<bool>', BOOL, ''),
+           ('vec_tup', 'Vec<(u8, u16)>', Tuple([U8, U16]), ''), ('bytes', 'Bytes', U8, 'use std::bytes::Bytes;\n'),
+           ('string', 'String', U8, 'use std::string::String;\n'), ('str', 'str', U8, ''), ('raw_slice', 'raw_slice', U8, '')]
+    lens = [0, 1, 2] if tier == 'quick' else [0, 1, 2, 3, 4]
+    for name, sway_ty, elem, uses in fam:
+        for n in lens:
+            for wrap in ('plain', 'in_tuple'):
+                if wrap == 'in_tuple' and (n != 2 or name in ('str', 'raw_slice')):
+                    continue
+                full_ty = sway_ty if wrap == 'plain' else f'(u8, {sway_ty}, u16)'
+                src = f'script;\n\n{uses}fn main(x: {full_ty}) -> {full_ty} {{\n    log(x);\n    x\n}}\n'
+                c = Case(f'dyn_{name}_{n}_{wrap}', src, note=f'{full_ty} with {n} element(s): decode, log, return', tags=['roundtrip', 'dynamic'])
+                esz = abi_size_fixed(elem)
+
+                def make_inputs(n=n, elem=elem, esz=esz, wrap=wrap):
+                    pre = [z3.BitVec('pre_0', 8)] if wrap == 'in_tuple' else []
+                    post = [z3.BitVec(f'post_{i}', 8) for i in range(2)] if wrap == 'in_tuple' else []
+                    ln = [(n >> (8 * (7 - i))) & 0xff for i in range(8)]
+                    body = [z3.BitVec(f'e_{i}', 8) for i in range(n * esz)]
+                    valid = []
+                    rest = list(body)
+                    for _ in range(n):
+                        _v, ok, rest = abi_decode(rest, elem)
+                        valid.append(ok)
+                    data = pre + ln + body + post
+                    return data, {'bytes': data, 'valid': z3.And(*valid) if valid else z3.BoolVal(True)}, {}
+
+                def spec(env):
+                    from .symvm import bv
+                    alts = [(z3.BoolVal(True), [bv(b, 8) for b in env['bytes']])]
+                    return {'revert': z3.Not(env['valid']), 'ret': alts, 'logs': [alts], 'assume': z3.BoolVal(True)}
+                c.make_inputs, c.spec = make_inputs, spec
+                c.sample = {'type': full_ty, 'elements': n}
+                cases.append(c)
+    return cases
+
+
 def build_expr_for(ty, args, counter):
     """expression constructing a value of type ty from fresh primitive main-args (appended to args)"""
     def fresh(t):
@@ -464,15 +505,15 @@ def main(argv=None):
     t0 = time.time()
     pid, tier, seed = a.pid, a.tier, a.seed
     if pid == 'C09':
-        cases = roundtrip_cases(tier, seed) + construct_cases(tier, seed)
+        cases = roundtrip_cases(tier, seed) + construct_cases(tier, seed) + dynamic_cases(tier, seed)
         assume = BASE_ASSUMPTIONS + ['canonical encoding = Fuel ABI v1 rules as implemented in sv/lang.py abi_encode/abi_decode; only inputs that are valid encodings are in scope for C09 (invalid ones: C10)',
-                                     'dynamic types (Vec, Bytes, String, str) are outside this check']
+                                     'dynamic types (Vec, Bytes, String, str, raw_slice) are checked with a concrete element count (0..2 quick, 0..4 thorough) and symbolic element bytes; construction of dynamic values inside Sway is covered by C27, not here']
         for c in cases:
             if 'roundtrip' in c.tags:
                 old = c.spec
                 c.spec = (lambda env, old=old: {**old(env), 'assume': env['valid']})
     elif pid == 'C10':
-        cases = roundtrip_cases(tier, seed) + construct_cases(tier, seed)
+        cases = roundtrip_cases(tier, seed) + construct_cases(tier, seed) + dynamic_cases(tier, seed)
         assume = BASE_ASSUMPTIONS + ['every byte string of the encoded size is in scope: valid encodings must round-trip, invalid ones (bool byte > 1, enum tag out of range) must revert',
                                      'construct_* cases build the value with ordinary stores and let the compiler choose the (trivial or not) encoding path; the classification itself is not inspected']
     elif pid == 'C13':
